@@ -337,7 +337,9 @@ impl Read for EvSource {
     fn read(&mut self, buf: &mut [u8]) -> std::io::Result<usize> {
         match self.evs.pop_front() {
             None => Ok(0),
-            Some(None) => Err(std::io::Error::new(std::io::ErrorKind::Interrupted, "injected source fault")),
+            // (a fatal kind: `Interrupted` is retried inside `fill_buffer` and is the subject of the
+            //  fault-kind sweep; the model's `err` event is a read that fails for good)
+            Some(None) => Err(std::io::Error::other("injected source fault")),
             Some(Some(c)) => {
                 if c.len() <= buf.len() {
                     buf[..c.len()].copy_from_slice(&c);
